@@ -246,20 +246,22 @@ class track_streams(open_hook):
         self.streams.clear()
 
 
-def drive(path, ops, nh=3, h1=None, h2=b"", b0=b"", init_bytes=None):
+def drive(path, ops, nh=3, h1=None, h2=b"", b0=b"", init_bytes=None, creator=None):
     """Runs `ops` on the real implementation.  Returns dict(results=[coq res], ops=[coq op], final=bytes,
     init=bytes, oracle=[(sig, text)])."""
     with track_streams(path) as ts:
-        return _drive(ts, path, ops, nh, h1, h2, b0, init_bytes)
+        return _drive(ts, path, ops, nh, h1, h2, b0, init_bytes, creator)
 
 
-def _drive(ts, path, ops, nh, h1, h2, b0, init_bytes):
+def _drive(ts, path, ops, nh, h1, h2, b0, init_bytes, creator=None):
     from molli.storage.ukvfile import UKVFile
     from io import UnsupportedOperation
     if os.path.exists(path):
         os.remove(path)
+    made = None
     if init_bytes is None:
-        UKVFile(path, "x", h1=h1, h2=h2, b0=b0).close()
+        made = UKVFile(path, creator or "x", h1=h1, h2=h2, b0=b0)
+        made.close()
     else:
         _wr(path, init_bytes)
     init = _rd(path)
@@ -271,6 +273,9 @@ def _drive(ts, path, ops, nh, h1, h2, b0, init_bytes):
     committed_end = disk_end                    # end of complete records before the current append session
     committed = dict(model)
     hs = [None] * nh
+    own_mode = "a"
+    if creator and made is not None:
+        hs[0] = made            # a closed handle that knows nothing yet (the model's h0); its mode is what close() left
     view = [None] * nh                          # oracle: key set each handle must list (snapshot at open / after own puts)
     res, cops, viol = [], [], []
 
@@ -313,8 +318,12 @@ def _drive(ts, path, ops, nh, h1, h2, b0, init_bytes):
                     fresh = hs[i].closed
                     if len(o) > 3 and o[3] == "enter" and hs[i].mode == m:
                         hs[i].__enter__()           # `with h:` spelling
+                    elif creator and hs[i] is made and own_mode == m and len(cops) % 2 == 0:
+                        hs[i].open()                # no mode named: the object's own (append after creation, else the last one named)
                     else:
                         hs[i].open(m)
+                        if hs[i] is made:
+                            own_mode = m
             except Exception as e:              # opening a library must not fail, whatever a crash left behind
                 viol.append((f"C02:open:raised:{type(e).__name__}",
                              f"open({m}) of handle {i} raised {type(e).__name__}: {str(e)[:80]} (file of {os.path.getsize(path)} bytes)"))
@@ -359,7 +368,8 @@ def _drive(ts, path, ops, nh, h1, h2, b0, init_bytes):
         h = hs[i]
         if kind == "hdr":
             # what this handle object took from the file header when it was last opened
-            got = (h.h1, h.h2, h.b0)
+            # (the object that created the file still holds h1 as it was given, before the writer padded it to 16 bytes)
+            got = (h.h1.ljust(16, b"\0") if isinstance(h.h1, bytes) else h.h1, h.h2, h.b0)
             _h1, _l2, _l0 = struct.unpack(">16sHI10x", header[:32])
             want = _h1, header[32:32 + _l2], header[32 + _l2:32 + _l2 + _l0]
             if got != want:
@@ -613,13 +623,22 @@ def directed_chistory(rng):
         # accepted puts: reading sessions that ask for them (get / items / values / contains) must not lose them, and the
         # next writing session stores them
         ops.append(("endw", 0))
-        for _ in range(rng.randint(1, 2)):
+        other = len(cfg) > 1 and not cfg[1][1]
+        # (half of the time nothing happens on the first handle between its failed session and the other handle's writes:
+        #  a reading session in between would close and so refresh it)
+        for _ in range(0 if other and rng.random() < 0.5 else rng.randint(1, 2)):
             ops.append(("beginr", 0))
             for k in rng.sample(pre + batch, len(pre + batch)):
                 ops.append(rng.choice([("get", 0, k), ("contains", 0, k, rng.randrange(2)), ("get", 0, k)]))
             ops.append(rng.choice([("items", 0), ("values", 0), ("keys", 0), ("len", 0, rng.randrange(3))]))
             ops.append(("endr", 0))
+        if other:
+            # another handle writes in between: the first one, back from its failed session, must map the file again
+            ops += [("beginw", 1), ("put", 1, "z", V()), ("put", 1, "zz", V()), ("endw", 1)]
         ops += [("beginw", 0), ("keys", 0), ("endw", 0), ("beginr", 0), ("keys", 0)] + [("get", 0, k) for k in pre + batch] + [("endr", 0)]
+        if other:
+            ops += [("beginr", 1), ("keys", 1)] + [("get", 1, k) for k in ["z", "zz"] + batch] + [("endr", 1),
+                    ("beginr", 0), ("get", 0, "z"), ("get", 0, "zz"), ("endr", 0)]
         return ops, cfg
     ops.append(rng.choice([("flush", 0), ("get", 0, batch[-1]), ("keys", 0)]))
     ops.append(("keys", 0))
@@ -665,6 +684,7 @@ def cdrive(path, ops, cfg, fault=None):
     cols = [Collection(path, UkvCollectionBackend, readonly=ro, bufsize=bs) for bs, ro in cfg]
     cms = [None] * len(cfg)
     pending = [[] for _ in cfg]   # per collection: keys of accepted puts not yet seen in the file
+    seen_recs = {}                # key -> value of every record that was complete in the file after some operation
     all_cols = []         # collection objects replaced by a pickled copy (their queues are cleared at the end too)
     res, cops, viol = [], [], []
     model = {}            # oracle: abstract map, maintained while every put is written through immediately
@@ -801,6 +821,16 @@ def cdrive(path, ops, cfg, fault=None):
             if k in ("endw", "endr"):
                 pass
         cops.append(bop_coq(o)); res.append(r)
+        # insert-only, judged on the file itself: a record that was once complete in the file stays there, byte for byte
+        if fault is None:
+            now = {kk: vv for kk, vv, _, _ in parse_file(_rd(path), bof)[0]}
+            for kk, vv in list(seen_recs.items()):
+                if now.get(kk) != vv:
+                    del seen_recs[kk]            # reported once
+                    viol.append(("C02:collection:stored-record-lost",
+                                 f"the record of key {kk[:8]!r}, complete in the file earlier, is {'altered' if kk in now else 'gone'} "
+                                 f"after op {len(cops)}: {cops[-1][:40]}"))
+            seen_recs = {**seen_recs, **now}
         # an accepted put is never lost: after every operation each one is in the file or still in the write queue
         # (a failing flush drops only the item whose write failed)
         for j, cj in enumerate(cols):
